@@ -701,6 +701,63 @@ fn main() {
         fs::remove_dir_all(&cwd).ok();
     }
 
+    // ---------------------------------------------------------------- stdout is a terminal
+    // (run under `script`, which gives the child a pty; stdout and stderr arrive merged)
+    if shard == 0 && Path::new("/usr/bin/script").exists() && wanted("tty") {
+        for mask in 0..4u32 {
+            let (wat, with_output) = (mask & 1 != 0, mask & 2 != 0);
+            ctx.n += 1;
+            let cwd = ctx.scratch.join(format!("case{}", ctx.n));
+            fs::create_dir_all(cwd.join("deps/t")).unwrap();
+            fs::create_dir_all(cwd.join("out")).unwrap();
+            for (n, bytes) in &fixtures {
+                fs::write(cwd.join("deps/t").join(format!("{n}.wasm")), bytes).unwrap();
+            }
+            let source = &fixed_compositions()[0].1;
+            fs::write(cwd.join("input.wac"), source).unwrap();
+            let mut cmdline = format!("{} compose", ctx.wac.display());
+            if wat {
+                cmdline.push_str(" -t");
+            }
+            if with_output {
+                cmdline.push_str(" -o out/result.bin");
+            }
+            cmdline.push_str(" input.wac");
+            let o = Command::new("/usr/bin/script")
+                .args(["-q", "-e", "-c", &cmdline, "/dev/null"])
+                .current_dir(&cwd)
+                .env("HOME", &cwd)
+                .env("NO_COLOR", "1")
+                .env("TOKIO_WORKER_THREADS", "2")
+                .env_remove("RUST_LOG")
+                .env_remove("RUST_BACKTRACE")
+                .stdin(std::process::Stdio::null())
+                .output()
+                .expect("spawn script");
+            let merged: Vec<u8> = o.stdout.iter().copied().filter(|b| *b != b'\r').collect();
+            let lib = lib_compose(&cwd, "input.wac", "deps", &[], true, true);
+            let text = lib.as_ref().ok().and_then(|b| wasmprinter::print_bytes(b).ok()).map(|t| format!("{t}\n").into_bytes());
+            let file = fs::read(cwd.join("out/result.bin")).ok();
+            let f: Vec<String> = vec![
+                "tty".into(),
+                b(wat),
+                esc(if with_output { "out/result.bin" } else { "" }),
+                lib_field(&mut ctx.intern, &lib),
+                o.status.code().map(|c| c.to_string()).unwrap_or_else(|| "signal".into()),
+                b(text.as_deref() == Some(&merged[..])),
+                b(merged.is_empty()),
+                b(String::from_utf8_lossy(&merged).contains("error")),
+                match file {
+                    Some(bytes) => format!("F{}", ctx.intern.tok(&bytes)),
+                    None => "-".into(),
+                },
+            ];
+            out.count("tty:compose");
+            out.case(true, "tty", &f);
+            fs::remove_dir_all(&cwd).ok();
+        }
+    }
+
     // usage errors are clap's: observed only
     let o = ctx.run_wac(&ctx.scratch.clone(), &["compose".into()]);
     out.count(&format!("observed:compose-without-path:exit{}", o.exit.unwrap_or(-1)));
